@@ -120,6 +120,23 @@ pub fn compile_corpus() -> Vec<Spec> {
         )],
         ..Default::default()
     });
+    // more than three required inputs on an operation whose id starts with a digit: the example must import the
+    // required-arguments struct under its sanitised name
+    v.push(Spec {
+        paths: vec![item(
+            "/2fa",
+            vec![Op {
+                params: vec![
+                    Param { name: "a".into(), loc: Loc::Query, required: true, schema: inl(s_int()) },
+                    Param { name: "b".into(), loc: Loc::Query, required: true, schema: inl(s_string()) },
+                    Param { name: "c".into(), loc: Loc::Header, required: true, schema: inl(s_num()) },
+                    Param { name: "d".into(), loc: Loc::Query, required: true, schema: inl(s_bool()) },
+                ],
+                ..op("post", Some("2fa"), vec![(200, None)])
+            }],
+        )],
+        ..Default::default()
+    });
     // oauth2
     v.push(Spec {
         paths: vec![item("/me", vec![op("get", Some("me"), vec![(200, None)])])],
